@@ -263,7 +263,7 @@ func (w *c29World) setupSubs() {
 	w.v = w.fw.AddNode("V")
 	w.h = w.fw.ConnectScript(w.v, "H", 0)
 	w.h.WantChannels(true, "c1", "c2")
-	s.ArmFraction([]int{100, 100, 50, 0}[t.Draw(4, "arm-pct")], []string{"floodsub/deliver", "floodsub/release", "floodsub/handle-valid", "floodsub/handle-publish", "harness/stream-close", "harness/handler"})
+	s.ArmFraction([]int{100, 100, 50, 0}[t.Draw(4, "arm-pct")], []string{"floodsub/deliver", "floodsub/release", "floodsub/handle-valid", "floodsub/handle-publish", "harness/stream-close", "harness/handler", "go:pubsub/floodsub/", "go:pubsub/controller/"})
 }
 
 func (w *c29World) actionsSubs(s *dsim.Sim, add func(dsim.Action)) {
